@@ -139,7 +139,10 @@ def build_target(spec, values):
         x = Parameter("x", T(values[1]))
         dn = Distribution("dn", torch.distributions.Normal, x,
                           {"loc": Parameter("m", T(spec["loc"])), "scale": Parameter("s", T(spec["scale"]))})
-        return [z, x], JointDistributionModel("joint", [dg, y, dn])
+        joint = JointDistributionModel("joint", [dg, y, dn])
+        # the factor of the chain's target that touches x only: an HMC operator on x may be given just this
+        joint._c15sub = {1: JointDistributionModel("sub_x", [dn])}
+        return [z, x], joint
     if kind == "dirichlet":
         w = Parameter("w", T(values[0]))
         dd = Distribution("dd", torch.distributions.Dirichlet, w, {"concentration": Parameter("a", T(spec["alpha"]))})
@@ -217,7 +220,10 @@ def build_operators(spec_ops, params, joint):
             inner = LeapfrogIntegrator(f"lf{i}", o["steps"], o["scale"])
             integ = IntegProxy(inner)
             mass = Parameter(f"mass{i}", torch.tensor(o["mass"], dtype=pdtype))
-            if o.get("adaptors"):
+            if o.get("sub_joint") is not None:
+                # the operator's OWN joint is a sub-joint of the chain's (only the factors touching its parameters)
+                op = HMCOperator(f"op{i}", joint._c15sub[o["sub_joint"]], ps, integ, mass, o["weight"], o["target"], [], **kw)
+            elif o.get("adaptors"):
                 op = HMCOperator(f"op{i}", joint, ps, integ, mass, o["weight"], o["target"],
                                  build_adaptors(o["adaptors"], inner, ps, mass, i), **kw)
             else:
@@ -1179,9 +1185,30 @@ def block_true_hastings(o, r):
         e = x - mu
         return 0.5 * logdet - 0.5 * e @ (P @ e) - 0.5 * d * math.log(2 * math.pi)
 
-    mf, mb = np.array(r["modes"][0]), np.array(r["modes"][1])
-    if not (np.all(np.isfinite(mf)) and np.all(np.isfinite(mb))) or max(np.abs(mf).max(), np.abs(mb).max()) > 30:
+    mf_impl, mb_impl = np.array(r["modes"][0]), np.array(r["modes"][1])
+    if not (np.all(np.isfinite(mf_impl)) and np.all(np.isfinite(mb_impl))) or max(np.abs(mf_impl).max(), np.abs(mb_impl).max()) > 30:
         return None, None  # the mode finder diverged: exp(-mode) under/overflows, nothing to compare numerically
+
+    # the kernel's DEFINITION: the proposal made from a state searches its mode starting AT that state (forward: from the
+    # current field under the proposed precision; backward: from the proposed field under the current precision), with the
+    # operator's documented Newton-Raphson (stop when |gradient| <= stop_value, default 0.1, at most max_iterations = 200).
+    # The approximate mode depends on the start, so the reverse density must be recomputed with its own search.
+    def newton(start, Qm, stop=o.get("stop_value", 0.1), max_it=o.get("max_iterations", 200)):
+        import torch as _t
+
+        g = _t.tensor(start, dtype=_t.float64)
+        Qt, wt, ct = _t.tensor(Qm, dtype=_t.float64), _t.tensor(w, dtype=_t.float64), _t.tensor(c, dtype=_t.float64)
+        grad, it_ = None, 0
+        while (grad is None or float(_t.linalg.vector_norm(grad)) > stop) and it_ < max_it:
+            jac = Qt + _t.diag(_t.exp(-g) * wt)
+            grad = -(Qt @ g) - ct + _t.exp(-g) * wt
+            g = g + _t.linalg.solve(jac, grad)
+            it_ += 1
+        return g.numpy()
+
+    mf, mb = newton(g0, Q(t1)), newton(g1, Q(t0))
+    if not (np.all(np.isfinite(mf)) and np.all(np.isfinite(mb))):
+        return None, None
     return float(logn(g0, mb, Q(t0)) - logn(g1, mf, Q(t1))), None
 
 
@@ -1273,6 +1300,8 @@ def check_records(ck: Check, cfg, res, found, label):
         found.append(("MCMC.run:initial-density", {"clause": "initial log_joint is not the target at the initial state",
                                                    "carried": carried, "fresh": fresh0}, cfg, 0))
     hmc_counts, mass_samples = {}, {}
+    cur_true = fresh0 if isinstance(fresh0, float) else carried
+    fr = None
     LOOSEN[0] = 1e5 if cfg["target"].get("dtype") == "float32" else 1.0
     for it, r in enumerate(recs := res["records"]):
         o = cfg["ops"][r["op"]]
@@ -1300,12 +1329,17 @@ def check_records(ck: Check, cfg, res, found, label):
                     found.append((f"{kind}:density-outside-support",
                                   {"clause": "finite density used for a state the rebuilt target rejects",
                                    "used": lp, "fresh": str(fr)}, cfg, it))
+            elif lp is None and not (r["acc_prob"] == 0.0 and not r["accepted"]):
+                # the loop did not ask the chain's joint for this proposal (it took the density from somewhere else): what
+                # counts is the decision, checked below against the CHAIN'S target rebuilt from scratch
+                ck.bucket("oracle/density-not-evaluated-by-the-chain-joint")
+                degenerate = False
             elif lp is None:
-                la = (fr - carried) + r["hr"]
+                la = (fr - cur_true) + r["hr"]
                 found.append((f"{kind}:finite-hastings-treated-as-degenerate",
                               {"clause": "finite Hastings ratio and finite target at the proposal, but the move was rejected "
                                          "without evaluating the target (acceptance probability should be min(1, exp(delta+hr)))",
-                               "hr": r["hr"], "delta": fr - carried, "acceptance_probability_due": 1.0 if la >= 0 else math.exp(la),
+                               "hr": r["hr"], "delta": fr - cur_true, "acceptance_probability_due": 1.0 if la >= 0 else math.exp(la),
                                "accepted": r["accepted"]}, cfg, it))
                 degenerate = True
             elif not close(lp, fr, 1e-9):
@@ -1327,13 +1361,16 @@ def check_records(ck: Check, cfg, res, found, label):
         if degenerate:
             if r["accepted"] and math.isfinite(r["hr"]):
                 found.append((f"{kind}:degenerate-accepted", {"clause": "degenerate proposal accepted"}, cfg, it))
-        elif used_u and u is not None:
-            la = (lp - carried) + r["hr"]
+        elif used_u and u is not None and isinstance(fr, float) and isinstance(cur_true, float) and math.isfinite(cur_true):
+            # the property's rule, on the CHAIN'S target evaluated from scratch at both states (not on whatever value
+            # the loop carried or was handed)
+            la = (fr - cur_true) + r["hr"]
             prob_acc = 1.0 if la >= 0 else math.exp(la)
             if abs(prob_acc - u) > (1e-3 if LOOSEN[0] > 1 else 1e-6) * max(u, 1e-30):  # outside the float32 comparison zone
                 if r["accepted"] != (u < prob_acc):
                     found.append((f"{kind}:accept-rule", {"clause": "accepted <=> u < min(1, exp(delta + hr)) violated",
-                                                          "u": u, "delta": lp - carried, "hr": r["hr"],
+                                                          "u": u, "delta (target from scratch)": fr - cur_true, "hr": r["hr"],
+                                                          "acceptance_probability_due": prob_acc, "acceptance_prob_used": r["acc_prob"],
                                                           "accepted": r["accepted"]}, cfg, it))
             if not close(r["acc_prob"], prob_acc, 1e-9):
                 found.append((f"{kind}:acceptance-probability", {"clause": "acceptance probability handed to tune",
@@ -1378,7 +1415,7 @@ def check_records(ck: Check, cfg, res, found, label):
             found.append((f"{kind}:accept-keeps", {"clause": "an accepted move does not leave the proposal in place",
                                                    "proposed": r["proposed"], "after": r["after"]}, cfg, it))
         if r["accepted"]:
-            carried = lp
+            carried = lp if lp is not None else (fr if not degenerate else carried)
         # 5. logged row self-consistent
         if r["row"] is not None:
             fa = tgt.fresh(r["after"])
@@ -1388,7 +1425,9 @@ def check_records(ck: Check, cfg, res, found, label):
             elif isinstance(fa, float) and not close(r["row"][-1], fa, 1e-9):
                 found.append((f"{kind}:logged-density", {"clause": "logged density is not the target at the logged "
                                                                    "parameter values", "row": r["row"], "fresh": fa}, cfg, it))
-            if isinstance(fa, float) and not close(carried, fa, 1e-9):
+            if isinstance(fa, float):
+                cur_true = fa
+            if isinstance(fa, float) and carried is not None and not close(carried, fa, 1e-9):
                 found.append((f"{kind}:carried-density", {"clause": "carried log_joint is not the target at the "
                                                                     "current state", "carried": carried, "fresh": fa}, cfg, it))
         # 6b. HMC adaptors: direction of AdaptiveStepSize with the statistic its configuration uses; monotonicity
@@ -1835,6 +1874,11 @@ def gen_cfg(rng, family, adapt, iterations):
              "init": [[rng.uniform(-0.5, 0.5)], [rng.uniform(-1, 1)]]}
         ops = [op("window", [0], rng.uniform(0.2, 2)), op("window", [0, 1], rng.uniform(0.2, 2)),
                op("scaler", [1, 0], rng.uniform(0.3, 0.9))]
+        if rng.random() < 0.6:
+            # HMC on x whose own joint holds only the factor touching x, mixed with operators on the other parameter
+            ops.append(op("hmc", [1], rng.choice([0.1, 0.3, 0.6]), steps=rng.randint(1, 5), mass=[rng.choice([0.5, 1.0, 2.0])],
+                          G=[[0.0, 0.0], [0.0, 1.0 / t["scale"][0] ** 2]], b=[0.0, -t["loc"][0] / t["scale"][0] ** 2],
+                          target=0.8, sub_joint=1, weight=2.0))
         exact = False
     elif family == "dirichlet":
         k = rng.randint(2, 4)
@@ -2097,7 +2141,8 @@ def run(ck: Check):
                 compare_run(ck, drv, cfg, res, label)
             if cfg["family"] == "dtype" and not res["error"]:
                 compare_dtype_reference(ck, cfg, tseed, res, found)
-            if cfg["family"] in ("gamma_exp", "dirichlet") and not res["error"] and time.time() - ck.t0 < 70:
+            if cfg["family"] in ("gamma_exp", "dirichlet") and not res["error"] and time.time() - ck.t0 < 70 \
+                    and all(o["kind"] != "hmc" for o in cfg["ops"]):  # HMC needs autograd
                 compare_grad_mode(ck, cfg, tseed, res, found)
         if drv:
             tuning_cases(ck, drv, rng, 1500 if thorough else 300, found)
